@@ -320,3 +320,120 @@ Proof.
     unfold fl_of. rewrite map_length, combine_length.
     pose proof (Forall2_len _ _ _ Hf). pose proof (Forall2_len _ _ _ Hnum). lia.
 Qed.
+
+(* ---- number_items over the whole dictionary: every facet of every body gets
+   its own TRIPOLI-4 id (no two entries share |id|), the first facet keeps the
+   body's number ---- *)
+Definition pm1 (s : Z) : Prop := s = 1%Z \/ s = (-1)%Z.
+
+Definition abs_ids (dic : list (Z * list Z)) : list Z :=
+  map Z.abs (concat (map snd dic)).
+
+Definition extra (dic : list (Z * list Z)) : Z :=
+  fold_right (fun '(_, sides) acc => (Z.of_nat (List.length sides - 1) + acc)%Z) 0%Z dic.
+
+Lemma zseq_range (start : Z) (len : nat) x :
+  In x (zseq start len) -> (start <= x < start + Z.of_nat len)%Z.
+Proof.
+  revert start. induction len as [|l IH]; intros start; cbn [zseq]; [intros []|].
+  intros [<- | H]; [lia|]. apply IH in H. lia.
+Qed.
+
+Lemma abs_number_one (key free : Z) (sides : list Z) :
+  (0 < key)%Z -> (0 < free)%Z -> Forall pm1 sides -> sides <> [] ->
+  map Z.abs (number_one key free sides) = key :: zseq free (List.length sides - 1).
+Proof.
+  intros Hk Hf Hs Hne. destruct sides as [|s sides]; [congruence|].
+  inversion_clear Hs as [|? ? H1 H2]. cbn [number_one map List.length Nat.sub].
+  rewrite Nat.sub_0_r. f_equal; [destruct H1 as [-> | ->]; lia|].
+  revert free Hf. induction H2 as [|t r Ht _ IH]; intros free Hf; [reflexivity|].
+  cbn [number_rest map List.length zseq]. f_equal; [destruct Ht as [-> | ->]; lia|].
+  apply IH; [discriminate|lia].
+Qed.
+
+Lemma NoDup_app_intro {A} (l m : list A) :
+  NoDup l -> NoDup m -> (forall x, In x l -> In x m -> False) -> NoDup (l ++ m).
+Proof.
+  induction 1 as [|a l Ha _ IH]; intros Hm Hd; [exact Hm|].
+  cbn [app]. constructor.
+  - intros Hin. apply in_app_or in Hin. destruct Hin as [Hin|Hin]; [contradiction|].
+    apply (Hd a); [now left|exact Hin].
+  - apply IH; [exact Hm|]. intros x Hx. apply Hd. now right.
+Qed.
+
+Lemma extra_nonneg (dic : list (Z * list Z)) : (0 <= extra dic)%Z.
+Proof.
+  unfold extra. induction dic as [|[k s] r IH]; cbn [fold_right]; [lia|].
+  pose proof (Nat2Z.is_nonneg (List.length s - 1)). lia.
+Qed.
+
+Lemma number_from_layout (dic : list (Z * list Z)) : forall free : Z,
+  Forall (fun kv => (0 < fst kv < free)%Z /\ Forall pm1 (snd kv) /\ snd kv <> []) dic ->
+  NoDup (map fst dic) ->
+  NoDup (abs_ids (number_from free dic)) /\
+  Forall (fun x => In x (map fst dic) \/ (free <= x < free + extra dic)%Z)
+         (abs_ids (number_from free dic)).
+Proof.
+  induction dic as [|[key sides] r IH]; intros free Hd Hn.
+  - split; constructor.
+  - inversion_clear Hd as [|? ? (Hk & Hs & Hne) Hr]. cbn [fst snd] in *.
+    inversion_clear Hn as [|? ? Hnotin Hn'].
+    set (free' := (free + Z.of_nat (List.length sides - 1))%Z).
+    assert (Hr' : Forall (fun kv => (0 < fst kv < free')%Z /\ Forall pm1 (snd kv) /\ snd kv <> []) r).
+    { eapply Forall_impl; [|exact Hr]. intros kv (A & B & C). repeat split; try assumption; unfold free'; lia. }
+    destruct (IH free' Hr' Hn') as (ND & RG).
+    unfold abs_ids in *. cbn [number_from map concat snd]. rewrite map_app.
+    rewrite abs_number_one by (try assumption; lia).
+    fold free'. change (extra ((key, sides) :: r)) with (Z.of_nat (List.length sides - 1) + extra r)%Z.
+    cbn [map fst].
+    set (rest := map Z.abs (concat (map snd (number_from free' r)))) in *.
+    assert (RestFacts : forall y, In y rest -> In y (map fst r) \/ (free' <= y < free' + extra r)%Z).
+    { rewrite Forall_forall in RG. exact RG. }
+    assert (KeysSmall : forall y, In y (map fst r) -> (0 < y < free)%Z).
+    { intros y Hx. apply in_map_iff in Hx. destruct Hx as (kv & <- & Hin).
+      rewrite Forall_forall in Hr. apply (Hr kv Hin). }
+    assert (Ex : (0 <= extra r)%Z).
+    { apply extra_nonneg. }
+    split.
+    + cbn [app]. constructor.
+      * intros Hin. apply in_app_or in Hin. destruct Hin as [Hin | Hin].
+        -- apply zseq_range in Hin. lia.
+        -- destruct (RestFacts _ Hin) as [Hk' | Hrange]; [contradiction|]. unfold free' in Hrange. lia.
+      * apply NoDup_app_intro; [apply zseq_nodup | exact ND |].
+        intros y Hz Hx. apply zseq_range in Hz.
+        destruct (RestFacts _ Hx) as [Hk' | Hrange].
+        -- apply KeysSmall in Hk'. lia.
+        -- unfold free' in Hrange. lia.
+    + cbn [app]. constructor; [left; now left|]. apply Forall_app. split.
+      * apply Forall_forall. intros y Hz. apply zseq_range in Hz. right. unfold free' in *. lia.
+      * apply Forall_forall. intros y Hx. destruct (RestFacts _ Hx) as [Hk' | Hrange].
+        -- left. now right.
+        -- right. unfold free' in *. lia.
+Qed.
+
+Lemma fold_max_ge (l : list Z) : forall k x, (x = k \/ In x l) -> (x <= fold_left Z.max l k)%Z.
+Proof.
+  induction l as [|a l IH]; intros k x H; cbn [fold_left].
+  - destruct H as [-> | []]. lia.
+  - destruct H as [E | [E | H]].
+    + subst x. specialize (IH (Z.max k a) (Z.max k a) (or_introl eq_refl)). lia.
+    + subst a. specialize (IH (Z.max k x) (Z.max k x) (or_introl eq_refl)). lia.
+    + apply IH. now right.
+Qed.
+
+Lemma max_key_ge (dic : list (Z * list Z)) x : In x (map fst dic) -> (x <= max_key dic)%Z.
+Proof.
+  destruct dic as [|[k s] r]; [intros []|]. cbn [max_key map fst].
+  intros [<- | H]; apply fold_max_ge; auto.
+Qed.
+
+Theorem number_items_distinct (dic : list (Z * list Z)) :
+  Forall (fun kv => (0 < fst kv)%Z /\ Forall pm1 (snd kv) /\ snd kv <> []) dic ->
+  NoDup (map fst dic) ->
+  NoDup (abs_ids (number_items dic)).
+Proof.
+  intros Hd Hn. unfold number_items. apply number_from_layout; [|exact Hn].
+  apply Forall_forall. intros kv Hin. rewrite Forall_forall in Hd.
+  destruct (Hd kv Hin) as (A & B & C). repeat split; try assumption.
+  assert (fst kv <= max_key dic)%Z by (apply max_key_ge; now apply in_map). lia.
+Qed.
